@@ -102,6 +102,7 @@ fn oracles(id: &str) -> Oracles {
 
 /// libFuzzer target `history`: bytes -> history -> library driver on memory or SQLite.
 pub fn history(data: &[u8]) {
+    crate::clock::freeze();
     init();
     let mut u = Unstructured::new(data);
     let backend = match u.int_in_range(0..=7u8) {
@@ -202,6 +203,7 @@ fn rawreq(u: &mut Unstructured, n: u8) -> Result<RawReq> {
 
 /// libFuzzer target `http`: bytes -> prefix history + request-grammar sequence -> in-process service.
 pub fn http(data: &[u8]) {
+    crate::clock::freeze();
     init();
     let mut u = Unstructured::new(data);
     let backend = match u.int_in_range(0..=7u8) {
